@@ -420,6 +420,46 @@ impl Prop for C16 {
         let mut rng = Rng::new(seed);
         let thorough = tier == Tier::Thorough;
         let (max_axes, max_len, max_elems) = if thorough && rng.chance(1, 6) { (6, 9, 480) } else { (5, 6, 64) };
+        if idx % 10 != 9 && rng.chance(1, 150) {
+            // a very large file (>= 8,192 or > 65,535 values): the damage space is sampled here —
+            // every extension, the cuts inside the last values, the header, and random offsets
+            let n = *rng.pick(&[8192usize, 8193, 8200, 65536, 65537, 66000]);
+            let shape = if rng.chance(1, 2) { vec![n] } else if n % 2 == 0 { vec![2, n / 2] } else { vec![n] };
+            let cnt: usize = shape.iter().product();
+            let file = if rng.chance(1, 2) {
+                FileSpec::Npy(NpySpec {
+                    version: *rng.pick(&[1u8, 2, 3]),
+                    endian: '<',
+                    dtype: "f8".into(),
+                    shape,
+                    spelling: rng.below(12) as u8,
+                    raw: (0..cnt).map(|i| 4_978_000 + (i % 977) as i64).collect(),
+                })
+            } else {
+                FileSpec::NpyWritten(Spec::from_vals(shape, &(0..cnt).map(|i| 622_250.0 + (i % 89) as f64 * 0.25).collect::<Vec<_>>()))
+            };
+            let len = image(&file).map(|i| i.len()).unwrap_or(0);
+            let mut list = vec![];
+            for kind in 0..5u8 {
+                for n in 1..=16 {
+                    list.push(Damage::Extend { kind, n });
+                }
+            }
+            for k in 0..160.min(len) {
+                list.push(Damage::Truncate(k));
+            }
+            for back in 1..=40.min(len) {
+                list.push(Damage::Truncate(len - back));
+            }
+            for _ in 0..60 {
+                list.push(Damage::Truncate(rng.range(0, len.saturating_sub(1))));
+            }
+            return Case::L1 {
+                file,
+                damages: Damages::List(list),
+                via_file: rng.chance(1, 2),
+            };
+        }
         if idx % 10 != 9 && rng.chance(1, 60) {
             // a large file (>= 1,024 values of 8 bytes): readers may take different paths for
             // large buffers
@@ -517,6 +557,12 @@ impl Prop for C16 {
                 out.count(&format!("control_accepted.{}", key_file_kind(file)), 1);
                 if img.len() >= 8192 {
                     out.count("size.at_least_1024_values", 1);
+                }
+                if img.len() >= 65536 {
+                    out.count("size.at_least_8192_values", 1);
+                }
+                if img.len() > 8 * 65535 {
+                    out.count("size.more_than_65535_values", 1);
                 }
                 let list = match damages {
                     Damages::All => all_damages(file, &img),
